@@ -63,7 +63,7 @@ def wire(d, tag):
 # every fault: (lines to write, offset of the faulty line inside them, classes any ONE of which may report it,
 #               minimum number of diagnostics it produces)
 PAGE_FAULTS = ["unknown_directive", "unknown_role", "bad_option", "missing_include", "missing_literalinclude",
-               "missing_image", "undefined_ref", "undefined_substitution", "undefined_constant", "conflict", "arg_role", "todo", "monospace", "linksyntax"]
+               "missing_image", "undefined_ref", "undefined_substitution", "undefined_constant", "conflict", "arg_role", "todo", "monospace", "linksyntax", "unexpected_indent"]
 POSTPROCESS_FAULTS = ["missing_include", "undefined_ref", "undefined_substitution"]
 YAML_FAULTS = ["unknown_role", "undefined_ref", "missing_image", "unknown_directive", "undefined_constant", "arg_role", "todo"]
 
@@ -86,6 +86,9 @@ def block_lines(b):
     if t == "monospace":
         # single backquotes (the default role): a warning about the markup, at the line of the markup
         return [f"Paragraph {k} uses `single{k}` backquotes.", ""], 0, ["IncorrectMonospaceSyntax"]
+    if t == "unexpected_indent":
+        # a paragraph of three lines directly followed by an indented line: reported at the indented line, nothing invented
+        return [f"Paragraph {k} line one", "line two", "line three", f"   indented {k}", ""], 3, ["DocUtilsParseError", "UnexpectedIndentation"]
     if t == "linksyntax":
         return [f"A link written as `text{k} <https://example.com/{k}>` without the underscore.", ""], 0, ["IncorrectLinkSyntax"]
     if t == "bad_option":
